@@ -9,7 +9,7 @@ SFX = '' if SH_N == 1 else str(SH_I)
 WT = '/tmp/matrixwt' + SFX
 OUT = (os.environ.get('MATRIX_OUT') or os.path.join(HERE, 'seeded', 'matrix.json')) + ('' if SH_N == 1 else '.%d' % SH_I)
 IDS = "C11 C01 C02 C03 C04 C05 C06 C07 C08 C09 C10 C12 C13 C14 C15 C16 C17 C18 C19".split()
-env = dict(os.environ, VERIF_DRIVER='/verif/factdump/target/release/factdump', VERIF_TMPLX='/verif/tmplx/target/release/tmplx', VERIF_REPO=WT, VERIF_CACHE='/tmp/matrix-cache' + SFX, VERIF_EVIDENCE_DIR='/tmp/matrix-evidence' + SFX, VERIF_REPLAY_DIR='/tmp/matrix-replays' + SFX, VERIF_SCRATCH='/tmp/matrix-scratch' + SFX, VERIF_CACHE_KEEP='1', P='5')
+env = dict(os.environ, VERIF_DRIVER='/verif/factdump/target/release/factdump', VERIF_TMPLX='/verif/tmplx/target/release/tmplx', VERIF_REPO=WT, VERIF_CACHE='/tmp/matrix-cache' + SFX, VERIF_EVIDENCE_DIR='/tmp/matrix-evidence' + SFX, VERIF_REPLAY_DIR='/tmp/matrix-replays' + SFX, VERIF_SCRATCH='/tmp/matrix-scratch' + SFX, VERIF_CACHE_KEEP='1', P=os.environ.get('P', '4'), VERIF_JOBS=os.environ.get('VERIF_JOBS', '6'))
 
 VERIF_COMMIT = subprocess.run('git -C /verif rev-parse --short HEAD', shell=True, capture_output=True, text=True).stdout.strip()
 
